@@ -59,6 +59,15 @@ pub fn materialize(base: &Path, tree: &[Node]) {
                 };
                 std::os::unix::fs::symlink(&text, &p).unwrap_or_else(|e| panic!("symlink {:?}: {}", p, e));
             }
+            "p" => {
+                let c = std::ffi::CString::new(p.as_os_str().as_bytes()).unwrap();
+                unsafe {
+                    libc::mkfifo(c.as_ptr(), 0o644);
+                }
+            }
+            "s" => {
+                let _ = std::os::unix::net::UnixListener::bind(&p);
+            }
             _ => {
                 let size = n.extra.get("size").and_then(|s| s.as_u64()).unwrap_or(0);
                 let f = std::fs::File::create(&p).unwrap_or_else(|e| panic!("create {:?}: {}", p, e));
